@@ -173,7 +173,8 @@ class KconfigExpression(Token):
     """
     Kconfig expression parser: regex tokenization + recursive descent with operator precedence.
 
-    Operator precedence (lowest to highest): || , && , = != < > <= >= , !
+    Operator precedence (lowest to highest): || , && , ! , = != < > <= >=
+    The operands of a comparison are plain symbols/values (as in the legacy parser), so "!A = B" is "!(A = B)".
     Produces ParseResults matching pyparsing's infix_notation output structure:
       - single symbol  ->  ParseResults(['FOO'])
       - compound expr  ->  ParseResults([['A', '&&', 'B']])
@@ -265,38 +266,40 @@ class KconfigExpression(Token):
         """
         Parse an AND expression: expr && expr && ...
         """
-        return self._parse_binary_op(tokens, pos_idx, ("&&",), self._parse_cmp)
-
-    def _parse_cmp(self, tokens: List[str], pos_idx: int) -> Tuple:
-        """
-        Parse a comparison expression: expr (= | != | < | > | <= | >=) expr.
-        """
-        return self._parse_binary_op(tokens, pos_idx, self._cmp_operators, self._parse_unary)
+        return self._parse_binary_op(tokens, pos_idx, ("&&",), self._parse_unary)
 
     def _parse_unary(self, tokens: List[str], pos_idx: int) -> Tuple:
         """
         Parse a unary negation (right-associative): !expr
+        The negation applies to the whole comparison that follows it: !A = B is !(A = B).
         """
         if pos_idx < len(tokens) and tokens[pos_idx] == "!":
             pos_idx += 1
             operand, pos_idx = self._parse_unary(tokens, pos_idx)
             return ["!", operand], pos_idx
-        return self._parse_atom(tokens, pos_idx)
+        return self._parse_cmp(tokens, pos_idx)
 
-    def _parse_atom(self, tokens: List[str], pos_idx: int) -> Tuple:
+    def _parse_cmp(self, tokens: List[str], pos_idx: int) -> Tuple:
         """
-        Parse an atom: either a parenthesized sub-expression or a bare symbol/value.
+        Parse a parenthesized sub-expression or a comparison: symbol (= | != | < | > | <= | >=) symbol.
+        Only bare symbols/values can be compared, a parenthesized sub-expression cannot be an operand.
         """
-        if pos_idx >= len(tokens):
-            raise ParseException("", 0, "Unexpected end of expression")
-        tok = tokens[pos_idx]
-        if tok == "(":
+        if pos_idx < len(tokens) and tokens[pos_idx] == "(":
             pos_idx += 1
             result, pos_idx = self._parse_or(tokens, pos_idx)
             if pos_idx >= len(tokens) or tokens[pos_idx] != ")":
                 raise ParseException("", 0, "Missing closing parenthesis")
             pos_idx += 1
             return result, pos_idx
+        return self._parse_binary_op(tokens, pos_idx, self._cmp_operators, self._parse_symbol)
+
+    def _parse_symbol(self, tokens: List[str], pos_idx: int) -> Tuple:
+        """
+        Parse a bare symbol/value.
+        """
+        if pos_idx >= len(tokens):
+            raise ParseException("", 0, "Unexpected end of expression")
+        tok = tokens[pos_idx]
         if not self._symbol_regex.fullmatch(tok):
             raise ParseException("", 0, f"Unexpected token '{tok}' where symbol expected")
         return tok, pos_idx + 1
